@@ -81,11 +81,19 @@ theorem updateMaxDefs_head (k : Nat) (t : Table) (r : List Table) :
   · by_cases hb : t.block <;> simp [hk, hb] <;> omega
   · by_cases hb : t.block <;> simp [hk, hb] <;> omega
 
-/-- `DefineLocal` of a name the root table already holds returns the old symbol and changes nothing -/
+/-- `DefineLocal` of a name the root table already holds (a binding, not the entry `Resolve` caches for
+    a builtin that was used) returns the old symbol and changes nothing -/
 theorem defineLocal_existing (n : String) (s : CState) (t : Table) (sym : Symbol)
-    (ht : s.tables = [t]) (h : lookupSym n t.store = some sym) :
+    (ht : s.tables = [t]) (h : lookupSym n t.store = some sym) (hb : sym.scope ≠ .builtin) :
     (defineLocal n).run.run s = (.ok (sym, true), s) := by
-  simp [defineLocal, headTable, ht, h, ExceptT.run, StateT.run, bind, ExceptT.bind, ExceptT.mk,
+  have hd : definedSym n t = some sym := by
+    unfold definedSym
+    rw [h]
+    simp only
+    rw [if_neg]
+    intro hc
+    exact hb (by simpa using hc)
+  simp [defineLocal, headTable, ht, hd, ExceptT.run, StateT.run, bind, ExceptT.bind, ExceptT.mk,
     ExceptT.bindCont, StateT.bind, get, getThe, MonadStateOf.get, StateT.get, liftM, monadLift, MonadLift.monadLift,
     ExceptT.lift, pure, ExceptT.pure, StateT.pure, Functor.map, StateT.map]
 
